@@ -394,3 +394,45 @@ End Closed.
 Theorem check_deterministic nviol rules allp skip :
   check_rules nviol rules allp skip = check_rules nviol rules allp skip.
 Proof. reflexivity. Qed.
+
+(* ------------------------------------------------------------------ C06: order of the rule table, other rules' reports *)
+From Coq Require Import Permutation.
+
+Lemma filter_perm {A} (f : A -> bool) l l' : Permutation l l' -> Permutation (filter f l) (filter f l').
+Proof.
+  induction 1 as [|x l l' _ IH|x y l|l l' l'' _ IH1 _ IH2]; cbn [filter].
+  - constructor.
+  - destruct (f x); [now constructor|exact IH].
+  - destruct (f x), (f y); try apply Permutation_refl. apply perm_swap.
+  - eapply Permutation_trans; eassumption.
+Qed.
+
+Lemma flat_map_pointwise_perm {A B} (g g' : A -> list B) l :
+  (forall a, Permutation (g a) (g' a)) -> Permutation (flat_map g l) (flat_map g' l).
+Proof.
+  intros H. induction l as [|a l IH]; cbn [flat_map]; [constructor|]. now apply Permutation_app.
+Qed.
+
+(* the all-phases analysis of a re-ordered rule table analyses the same rules (as a multiset): which rules are
+   analysed does not depend on the order in which they were loaded *)
+Theorem check_order_irrelevant nviol nviol' skip rules rules' : Permutation rules rules' ->
+  Permutation (analysed (check_rules nviol rules true skip)) (analysed (check_rules nviol' rules' true skip)).
+Proof.
+  intros P. rewrite !all_phases_closed_form. unfold blocks. apply flat_map_pointwise_perm. intros p.
+  unfold block. apply flat_map_pointwise_perm. intros sp. unfold sub_rules. now apply filter_perm.
+Qed.
+
+(* ... nor on what any rule reports: with --all_phases the analysed list is the same for every assignment of
+   violation counts (no rule's report switches another rule's analysis on or off) *)
+Theorem all_phases_independent_of_counts nviol nviol' skip rules :
+  analysed (check_rules nviol rules true skip) = analysed (check_rules nviol' rules true skip).
+Proof. now rewrite !all_phases_closed_form. Qed.
+
+(* an enabled rule outside the disabled set D is analysed after disabling D iff it was analysed before *)
+Theorem disable_keeps_others nviol skip D rules r : (forall x, In x rules -> rdisabled x = false) ->
+  D r = false -> In r (analysed (check_rules nviol rules true skip)) ->
+  In (rid r) (map rid (analysed (check_rules nviol (map (disable D) rules) true skip))).
+Proof.
+  intros Hen HD Hin. rewrite check_disable_exact by exact Hen. apply in_map. apply filter_In. split; [exact Hin|].
+  now rewrite HD.
+Qed.
